@@ -10,8 +10,9 @@ SPEC = dict(
          "one beyond, <r/>, receive message/presence/iq/nonza, connection lost, reconnect where the scripted server refuses <resume/> and "
          "accepts <enable/>, accepts <resume/> with h exact/stale/beyond, offers no stream management, refuses both, resetCache}, applied to a "
          "real QXmppOutgoingClient (real StreamAckManager, C2sStreamManager, BindManager, XmppSocket; only QSslSocket::writeData is captured): "
-         "quick = every history of length 5 over a 9-symbol alphabet and of length 3 over all 19 symbols, thorough = length 7 over 7 symbols, "
-         "length 6 over 9, length 4 over 19; plus seeded random histories of up to 60 symbols over 23 symbols (weighted) including failed writes during "
+         "quick = every history of length 5 over a 9-symbol alphabet, of length 3 over all 19 symbols, and every length-5 continuation (9 "
+         "symbols) of a session holding two stored stanzas; thorough = length 7 over 7 symbols, length 6 over 9, length 4 over 19, and every "
+         "length-6 continuation of that session; plus seeded random histories of up to 60 symbols over 23 symbols (weighted) including failed writes during "
          "<r/>, <enabled/>, <resumed/>. Every op line (symbols resolved to numbers) compares, between the implementation and the Lean model, the "
          "ordered events of that op (elements written: packet label, r, a<h>, resume<h>; reports: label!sent|ack|ewrite|edisc; the bool send "
          "returns) and enabled()/lastIncomingSequenceNumber(). A history is non-trivial when it yields >= 2 distinct observations.",
